@@ -105,7 +105,7 @@ class Interp:
         while changed:
             changed = False
             for names, v in binds:
-                if isinstance(v, ast.Call) and ast.unparse(v.func).split(".")[-1] not in ("Validator", "validate", "bool", "list"):
+                if isinstance(v, ast.Call) and ast.unparse(v.func).split(".")[-1] not in ("Validator", "validate", "bool", "list") and self._map_helper_source(v) is None:
                     continue  # results of other calls are unknown anyway
                 if {x.id for x in ast.walk(v) if isinstance(x, ast.Name)} & rel:
                     for nm in names:
@@ -346,6 +346,12 @@ class Interp:
                 if st[f"vs:{v.func.value.id}"] == "N" and ss_none:
                     st[f"tr:{var}"] = "F"  # schema-less validation yields no errors (rule R10.7 checks the validator)
                 return
+            src = self._map_helper_source(v)
+            if src is not None:
+                st[f"nn:{var}"] = "NN"
+                if f"tr:{src}" in st:
+                    st[f"tr:{var}"] = st[f"tr:{src}"]
+                return
             env = self.helper_envelopes(v)
             if env is not None and len(env) == 1:
                 st[f"d:{var}"] = env[0]
@@ -436,6 +442,10 @@ class Interp:
             return {"T": "N", "F": "E"}.get(t, TOP)
         if isinstance(v, ast.Call) and ast.unparse(v.func) == "list" and len(v.args) == 1:
             return self._list_abs(v.args[0], st, var)
+        if isinstance(v, ast.Call):
+            src = self._map_helper_source(v)
+            if src is not None:
+                return {"T": "N", "F": "E"}.get(st.get(f"tr:{src}"), TOP)
         return TOP
 
     def _store_key(self, env: Envelope, key: Any, v: ast.AST, st: dict, var: str | None) -> Envelope:
@@ -490,6 +500,8 @@ class Interp:
 
     def call_effect(self, c: ast.Call, st: dict, node: Node) -> None:
         f = c.func
+        if any(isinstance(a, ast.Name) and f"d:{a.id}" in st for a in c.args):
+            self._helper_dict_effect(c, st, node)
         if isinstance(f, ast.Attribute) and isinstance(f.value, ast.Name) and f"d:{f.value.id}" in st:
             var = f.value.id
             if f.attr == "pop" and c.args and isinstance(c.args[0], ast.Constant):
@@ -598,6 +610,8 @@ class Interp:
                 if isnone:
                     st[f"tr:{l.id}"] = "F"
                 return
+            if isinstance(op, (ast.In, ast.NotIn)) and isinstance(r, ast.Name):
+                r = self._const_collection(r.id) or r
             if isinstance(op, (ast.In, ast.NotIn)) and isinstance(r, (ast.Tuple, ast.List, ast.Set)):
                 consts = {c.value for c in r.elts if isinstance(c, ast.Constant)}
                 if consts and consts <= {"LENIENT", "ULTRA"} and "LENIENT" in consts:
@@ -610,6 +624,91 @@ class Interp:
                 if isinstance(op, ast.Eq) == val:
                     st[f"st:{l.id}"] = r.value
                 return
+
+    def _const_collection(self, name: str) -> ast.AST | None:
+        """a module-level constant that is a literal collection (possibly wrapped in frozenset()/set()/tuple()) and that the
+        function does not rebind"""
+        m = self.fi.module
+        if name in self.params or not m.has_const(name) or any(isinstance(n, ast.Name) and n.id == name and isinstance(n.ctx, ast.Store) for n in walk_no_nested(self.fi.node)):
+            return None
+        try:
+            v = m.const_node(name)
+        except Exception:
+            return None
+        if isinstance(v, ast.Call) and isinstance(v.func, ast.Name) and v.func.id in ("frozenset", "set", "tuple") and len(v.args) == 1 and not v.keywords:
+            v = v.args[0]
+        return v if isinstance(v, (ast.Tuple, ast.List, ast.Set)) else None
+
+    def _map_helper_source(self, v: ast.Call) -> str | None:
+        """`f(xs)` where f (same module) is `return [<expr> for x in <param>]` without filter: one result per element of xs;
+        returns the caller's name passed for that parameter"""
+        h = self._local_helper(v)
+        if h is None or v.keywords:
+            return None
+        body = [b for b in h.node.body if not (isinstance(b, ast.Expr) and isinstance(b.value, ast.Constant))]  # type: ignore[attr-defined]
+        if len(body) != 1 or not isinstance(body[0], ast.Return) or not isinstance(body[0].value, ast.ListComp):
+            return None
+        lc = body[0].value
+        if len(lc.generators) != 1 or lc.generators[0].ifs or not isinstance(lc.generators[0].iter, ast.Name):
+            return None
+        params = [a.arg for a in h.node.args.args if a.arg not in ("self", "cls")]  # type: ignore[attr-defined]
+        if lc.generators[0].iter.id not in params or len(v.args) != len(params):
+            return None
+        a = v.args[params.index(lc.generators[0].iter.id)]
+        return a.id if isinstance(a, ast.Name) else None
+
+    def _local_helper(self, c: ast.Call) -> FuncInfo | None:
+        m = self.fi.module
+        f = c.func
+        if isinstance(f, ast.Name):
+            cands = [x for x in m.functions.values() if x.name == f.id and x.cls is None]
+        elif isinstance(f, ast.Attribute) and isinstance(f.value, ast.Name) and f.value.id in ("self", "cls") and self.fi.cls:
+            cands = [x for x in m.functions.values() if x.name == f.attr and x.cls == self.fi.cls]
+        else:
+            return None
+        return cands[0] if len(cands) == 1 and cands[0] is not self.fi else None
+
+    def _helper_dict_effect(self, c: ast.Call, st: dict, node: Node) -> None:
+        """an envelope dict handed to a helper of the same module: stores the helper makes at the top level of its body are
+        applied; anything less clear (conditional stores, the dict passed on, method calls on it) makes the fields unknown"""
+        h = self._local_helper(c)
+        if h is None:
+            return
+        params = [a.arg for a in h.node.args.args if a.arg not in ("self", "cls")]  # type: ignore[attr-defined]
+        for i, a in enumerate(c.args):
+            if not (isinstance(a, ast.Name) and f"d:{a.id}" in st and i < len(params)):
+                continue
+            p = params[i]
+            top_level = {id(b) for b in h.node.body}  # type: ignore[attr-defined]
+            for n in walk_no_nested(h.node):
+                if isinstance(n, ast.Assign):
+                    for t in n.targets:
+                        if isinstance(t, ast.Subscript) and isinstance(t.value, ast.Name) and t.value.id == p:
+                            key = t.slice.value if isinstance(t.slice, ast.Constant) else None
+                            env: Envelope = st[f"d:{a.id}"]
+                            definite = id(n) in top_level
+                            if key is None:
+                                st[f"d:{a.id}"] = replace(env, status=TOP)
+                            elif key == "validation_error_count":
+                                if definite:
+                                    st[f"d:{a.id}"] = self._store_key(env, key, n.value, st, a.id)
+                            elif key == STATUS_KEY:
+                                new = replace(env, status=n.value.value if definite and isinstance(n.value, ast.Constant) and isinstance(n.value.value, str) else TOP)
+                                st[f"d:{a.id}"] = new
+                                self.events.append(("status-store", node, dict(st), (a.id, new.status)))
+                            elif key == "valid":
+                                st[f"d:{a.id}"] = replace(env, valid=("T" if n.value.value else "F") if definite and isinstance(n.value, ast.Constant) and isinstance(n.value.value, bool) else TOP)
+                            elif key == "validation_errors":
+                                st[f"d:{a.id}"] = replace(env, verrs=TOP)
+                elif isinstance(n, ast.Call):
+                    passes_on = any(isinstance(x, ast.Name) and x.id == p for x in n.args) or any(isinstance(k.value, ast.Name) and k.value.id == p for k in n.keywords)
+                    mutates = isinstance(n.func, ast.Attribute) and isinstance(n.func.value, ast.Name) and n.func.value.id == p and n.func.attr in ("update", "pop", "clear", "setdefault", "popitem")
+                    if (passes_on and not (isinstance(n.func, ast.Name) and n.func.id in ("len", "bool", "isinstance", "str", "repr"))) or mutates:
+                        st[f"d:{a.id}"] = replace(st[f"d:{a.id}"], status=TOP, valid=TOP, verrs=TOP)
+                elif isinstance(n, ast.Delete):
+                    for t in n.targets:
+                        if isinstance(t, ast.Subscript) and isinstance(t.value, ast.Name) and t.value.id == p:
+                            st[f"d:{a.id}"] = replace(st[f"d:{a.id}"], status=TOP, valid=TOP, verrs=TOP)
 
     # ------------------------------------------------------------- evidence
     def schema_evidence(self, st: dict) -> str | None:
